@@ -237,16 +237,16 @@ func init() {
 		ID: "C17", Module: "GenCompose", CheckLog: false,
 		Quick:    []semRun{{Cfg: "GenCompose.quick.cfg", Workers: 8}, {Cfg: "GenCompose.quick2.cfg", Workers: 8}},
 		Thorough: []semRun{{Cfg: "GenCompose.thorough.cfg", Workers: 12}},
-		Rule: "GenCompose.tla: bodies of up to MaxItems items (literal text with markup and quotes, the passed data, a caller's variable, loop, condition, trusted HTML, a nested partial, a let that rebinds the data name) x 17 composition mechanisms (partial plain / .js / .html / without data, one and two levels of layout, layout under javascript, nested partial, contentFor+contentOf once / twice with different data / redefined, contentOf default block for an undefined name, undefined name without default (error), defined name with an unused default, block helper with caller's / own context, block helper returning string) x content type {unset, html, javascript}. TLC checks InlineTheorem (composed = inline where no layout / JS escaping / re-escaping is involved) and FrameTheorem on the reference semantics. Real plush must render the model's output (JS escaping per character as template.JSEscapeString) for the composed AND the inlined source. distinct_nontrivial = distinct (mechanism, content type, body) shapes.",
+		Rule:     "GenCompose.tla: bodies of up to MaxItems items (literal text with markup and quotes, the passed data, a caller's variable, loop, condition, trusted HTML, a nested partial, a let that rebinds the data name) x 17 composition mechanisms (partial plain / .js / .html / without data, one and two levels of layout, layout under javascript, nested partial, contentFor+contentOf once / twice with different data / redefined, contentOf default block for an undefined name, undefined name without default (error), defined name with an unused default, block helper with caller's / own context, block helper returning string) x content type {unset, html, javascript}. TLC checks InlineTheorem (composed = inline where no layout / JS escaping / re-escaping is involved) and FrameTheorem on the reference semantics. Real plush must render the model's output (JS escaping per character as template.JSEscapeString) for the composed AND the inlined source. distinct_nontrivial = distinct (mechanism, content type, body) shapes.",
 	})
 	registerSem(semSpec{
 		ID: "C18", Module: "GenLayout", CheckLog: false,
 		Quick:    []semRun{{Cfg: "GenLayout.single.cfg", Workers: 8}, {Cfg: "GenLayout.random.cfg", Simulate: 300, Depth: 200}},
 		Thorough: []semRun{{Cfg: "GenLayout.single.cfg", Workers: 12}, {Cfg: "GenLayout.random.cfg", Simulate: 6000, Depth: 200}},
-		Rule: "GenLayout.tla: 11 programs covering let / assignment / arithmetic, if chains, loops with break and continue, functions, hashes / arrays / indexes, block helpers, nested loops, logic and strings, contentFor / contentOf / partial, printed canonically as token lists; a layout chooses for every separator inside a tag one of {space, tab, newline, CR LF, two spaces, # line comment, nothing next to a tag delimiter}, for every boundary of two adjacent code tags one of {keep, merge with newline / semicolon / space} (which also puts statements directly after an opening or closing brace), and for every tag end whether a comment tag follows. Exhaustive: every layout differing from the canonical one in exactly one position (1.5k); seeded random layouts differing everywhere. TLC checks SameTokens (a layout changes nothing but separators, tag boundaries and comments). Real plush must render the canonical and the laid-out source to the model's output. InsideLex.tla: the in-tag scanner as a machine; TLC checks LayoutInsensitive (token words x separators scan like the single-space layout); every string over 28 characters up to length 3 / 4 is scanned by the real lexer and compared with the machine (drift = the machine no longer describes lexer.go), and every (laid out, canonical) word pair must scan to the same tokens in the real lexer. distinct_nontrivial = distinct (program, layout) pairs + distinct laid-out token words.",
-		Shape: func(sc *semCase) string { return decodeChars(sc.Srcs["layout"]) },
-		Pre:   lexMachine,
-		Side:  map[string]func(*Ctx, json.RawMessage){"InsideLex": sideLex, "InsideLexW": sideLex},
+		Rule:     "GenLayout.tla: 11 programs covering let / assignment / arithmetic, if chains, loops with break and continue, functions, hashes / arrays / indexes, block helpers, nested loops, logic and strings, contentFor / contentOf / partial, printed canonically as token lists; a layout chooses for every separator inside a tag one of {space, tab, newline, CR LF, two spaces, # line comment, nothing next to a tag delimiter}, for every boundary of two adjacent code tags one of {keep, merge with newline / semicolon / space} (which also puts statements directly after an opening or closing brace), and for every tag end whether a comment tag follows. Exhaustive: every layout differing from the canonical one in exactly one position (1.5k); seeded random layouts differing everywhere. TLC checks SameTokens (a layout changes nothing but separators, tag boundaries and comments). Real plush must render the canonical and the laid-out source to the model's output. InsideLex.tla: the in-tag scanner as a machine; TLC checks LayoutInsensitive (token words x separators scan like the single-space layout); every string over 28 characters up to length 3 / 4 is scanned by the real lexer and compared with the machine (drift = the machine no longer describes lexer.go), and every (laid out, canonical) word pair must scan to the same tokens in the real lexer. distinct_nontrivial = distinct (program, layout) pairs + distinct laid-out token words.",
+		Shape:    func(sc *semCase) string { return decodeChars(sc.Srcs["layout"]) },
+		Pre:      lexMachine,
+		Side:     map[string]func(*Ctx, json.RawMessage){"InsideLex": sideLex, "InsideLexW": sideLex},
 	})
 	registerSem(semSpec{
 		ID: "C05", Module: "GenFaults", CheckLog: true,
